@@ -1,15 +1,17 @@
 #!/bin/bash
-# seedtable.sh : run every seeded change against the check of the property it breaks (scratch copies; /repo untouched)
-# and write seeded/TABLE.txt
+# seedtable.sh [P] : run every seeded change against the check of the property it breaks (scratch copies; /repo
+# untouched), P runs at a time (default 3), and write seeded/TABLE.txt
 cd /verif
+P=${1:-3}
 OUT=seeded/TABLE.txt
-: > $OUT.tmp
 CLAIMED=$(python3 -c "import json; print(' '.join(sorted(json.load(open('tools/claimed.json')))))")
-for d in seeded/C*/; do
-  s=$(basename $d); p=${s%-*}
-  if ! echo " $CLAIMED " | grep -q " $p "; then echo "$s $p not-claimed" >> $OUT.tmp; continue; fi
-  (cd /repo && git apply --check /verif/seeded/$s/patch.diff 2>/dev/null) || { echo "$s $p patch-does-not-apply (obsolete)" >> $OUT.tmp; continue; }
-  tools/seedrun.sh $s $p | cut -c1-160 >> $OUT.tmp
-done
+one() {
+  s=$1; p=${s%-*}
+  if ! echo " $CLAIMED " | grep -q " $p "; then echo "$s $p not-claimed"; return; fi
+  (cd /repo && git apply --check /verif/seeded/$s/patch.diff 2>/dev/null) || { echo "$s $p patch-does-not-apply (obsolete)"; return; }
+  tools/seedrun.sh $s $p | cut -c1-160
+}
+export -f one; export CLAIMED
+ls -d seeded/C*/ | xargs -n1 basename | xargs -P $P -I{} bash -c 'one {}' | sort > $OUT.tmp
 mv $OUT.tmp $OUT
 cat $OUT
